@@ -40,7 +40,10 @@ def main(argv):
         rec = {"i": ei, "kind": entry["kind"], "item": entry.get("item")}
         try:
             if entry["kind"] == "main":
-                rec["rc"] = gmain(["graphtage"] + spec["items"][entry["item"]]["argv"])
+                item = spec["items"][entry["item"]]
+                if item.get("stdin") is not None:
+                    sys.stdin = _Stdin(item["stdin"].encode("utf-8"))   # `-` on the command line: spooled to a temp file
+                rec["rc"] = gmain(["graphtage"] + item["argv"])
             elif entry["kind"] == "lib":
                 # a library user between two CLI-style calls: build, diff, print with its own Printer
                 wl = spec["lib_docs"][entry["doc"] % len(spec["lib_docs"])]
@@ -67,6 +70,21 @@ def main(argv):
         json.dump({"results": results, "hashseed": os.environ.get("PYTHONHASHSEED"),
                    "probe_id": id(keep), "stdout_type": type(sys.stdout).__name__}, f)
     return 0
+
+
+class _Stdin:
+    def __init__(self, data):
+        import io
+        self.buffer = io.BytesIO(data)
+
+    def read(self, *a):
+        return self.buffer.read(*a).decode("utf-8")
+
+    def isatty(self):
+        return False
+
+    def fileno(self):
+        return 0
 
 
 class _Sink:
